@@ -100,7 +100,7 @@ def make_case(index, rng, tier):
             "graceful_timeout": rng.choice([1, 2, 4]), "at_capacity": at_capacity,
             "buggify": {"pyticks": rng.randrange(3) == 0, "short_recv": rng.randrange(3) == 0, "spurious_select": False,
                         "accept_eagain": rng.randrange(4) == 0},
-            "preempt": rng.randrange(0, 6), "fine": rng.choice([0, 0, 0, 2, 4])}
+            "preempt": rng.randrange(0, 6), "fine": rng.choice([0, 0, 0, 2, 4]), "fine_long": rng.randrange(2) == 0}
 
 
 def run(case, choices):
@@ -111,6 +111,7 @@ def run(case, choices):
         preempt.enable()
         sim.py_ticks = True          # eval-breaker points inside gunicorn's Python code are delivery / pre-emption points too
     sim.fine_interleave = case.get("fine", 0)
+    sim.fine_long = bool(case.get("fine_long"))
     wc, ka, gt = case["worker_connections"], case["keepalive"], case["graceful_timeout"]
     w = W.WorkerWorld(sim, "gthread", {"timeout": 30, "graceful_timeout": gt, "keepalive": ka, "threads": case["threads"],
                                        "worker_connections": wc})
